@@ -1,26 +1,5 @@
 // ---------------- TRUSTED stand-ins: warp reply/rejection types and the generated gRPC client ----------------
-pub mod errors {
-//@ extract teos-common/src/errors.rs :: const MISSING_FIELD
-//@ end
-//@ extract teos-common/src/errors.rs :: const EMPTY_FIELD
-//@ end
-//@ extract teos-common/src/errors.rs :: const WRONG_FIELD_SIZE
-//@ end
-//@ extract teos-common/src/errors.rs :: const WRONG_FIELD_FORMAT
-//@ end
-//@ extract teos-common/src/errors.rs :: const INVALID_SIGNATURE_OR_SUBSCRIPTION_ERROR
-//@ end
-//@ extract teos-common/src/errors.rs :: const SERVICE_UNAVAILABLE
-//@ end
-//@ extract teos-common/src/errors.rs :: const APPOINTMENT_ALREADY_TRIGGERED
-//@ end
-//@ extract teos-common/src/errors.rs :: const APPOINTMENT_NOT_FOUND
-//@ end
-//@ extract teos-common/src/errors.rs :: const REGISTRATION_RESOURCE_EXHAUSTED
-//@ end
-//@ extract teos-common/src/errors.rs :: const UNEXPECTED_ERROR
-//@ end
-}
+//@ include prelude/errors_mod.inc
 //@ extract teos-common/src/lib.rs :: const USER_ID_LEN
 //@ end
 //@ extract teos-common/src/appointment.rs :: const LOCATOR_LEN
